@@ -33,7 +33,11 @@ STRUCTS = {"struct P1": ("struct P1 { long x; };", "{%ld}", "{0}.x", ["(struct P
            "struct FF": ("struct FF { float x, y; int z; };", "{%g,%g,%d}", "{0}.x, {0}.y, {0}.z", ["(struct FF) {1.25f, 2.25f, 9}"]),
            "struct IF": ("struct IF { int x; float y; };", "{%d,%g}", "{0}.x, {0}.y", ["(struct IF) {55, 6.0f}"]),
            "struct CFD": ("struct CFD { char x; float y; double z; };", "{%d,%g,%g}", "{0}.x, {0}.y, {0}.z", ["(struct CFD) {7, 1.5f, 2.5}"]),
-           "struct M3": ("struct M3 { long x, y, z; };", "{%ld,%ld,%ld}", "{0}.x, {0}.y, {0}.z", ["(struct M3) {51, 52, 53}"])}
+           "struct M3": ("struct M3 { long x, y, z; };", "{%ld,%ld,%ld}", "{0}.x, {0}.y, {0}.z", ["(struct M3) {51, 52, 53}"]),
+           # 16-byte aligned aggregates (long double members): MEMORY class arguments that must land on a 16-byte boundary; L1 is returned in st0
+           "struct L1": ("struct L1 { long double x; };", "{%Lg}", "{0}.x", ["(struct L1) {6.5L}", "(struct L1) {-2.25L}"]),
+           "struct LI": ("struct LI { long double x; int y; };", "{%Lg,%d}", "{0}.x, {0}.y", ["(struct LI) {7.5L, 61}"]),
+           "union UL": ("union UL { long double x; long y[2]; };", "{%ld,%ld}", "{0}.y[0], {0}.y[1]", ["(union UL) {.y = {71, 72}}"])}
 for _k, _v in STRUCTS.items():
     TYPES.append((_k, None, None))
     VALS[_k] = _v[3]
